@@ -712,7 +712,7 @@ pub fn gen_c03(run: &mut Run, seed: u64, thorough: bool) {
             g.q_auth_state(&[]);
         }
         // proofs of every kind for a good candidate
-        for kind in 0..7 {
+        for kind in 0..10 {
             let cand = g.mk_set(2, 0, 2);
             let latest = g.sets.last().unwrap().clone();
             let n = g.sets.len();
@@ -738,10 +738,19 @@ pub fn gen_c03(run: &mut Run, seed: u64, thorough: bool) {
                     // approval-style data hash over the candidate's hash
                     (g.honest(&latest, &cand.hash(&g.env)), false, AuthSpec::None, "proof-plain-set-hash")
                 }
-                _ => {
+                6 => {
                     let old = g.sets[0].clone();
                     (g.honest(&old, &cand.rotation_data_hash(&g.env)), true, AuthSpec::exact(&[g.operator.clone()]), "proof-oldest-bypass")
                 }
+                7 => {
+                    let older = g.sets[n.saturating_sub(2)].clone();
+                    (g.honest(&older, &cand.rotation_data_hash(&g.env)), true, AuthSpec::None, "proof-older-bypass-nobody")
+                }
+                8 => {
+                    let older = g.sets[n.saturating_sub(2)].clone();
+                    (g.honest(&older, &cand.rotation_data_hash(&g.env)), true, AuthSpec::exact(&[g.owner.clone()]), "proof-older-bypass-owner")
+                }
+                _ => (g.honest(&latest, &cand.rotation_data_hash(&g.env)), true, AuthSpec::exact(&[Addr::c(9)]), "proof-latest-bypass-stranger"),
             };
             g.rotate(&cand, &pf, bypass, &auth, name);
             g.q_auth_state(&[cand.hash(&g.env)]);
@@ -788,7 +797,7 @@ pub fn gen_c03(run: &mut Run, seed: u64, thorough: bool) {
 // ------------------------------------------------------------------------------------------------
 pub fn gen_c08(run: &mut Run, seed: u64, thorough: bool) {
     let mut g = G::new(run, seed);
-    let retentions: Vec<u64> = if thorough { vec![0, 1, 2, 3, 5, 10, 1000] } else { vec![0, 1, 2, 3, 10] };
+    let retentions: Vec<u64> = if thorough { vec![0, 1, 2, 3, 5, 10, 1000, u64::MAX - 1, u64::MAX] } else { vec![0, 1, 2, 3, 10, u64::MAX - 1, u64::MAX] };
     let mut sc = 0;
     for &ret in &retentions {
         for ninit in 1..=3usize {
@@ -889,11 +898,20 @@ pub fn gen_c09(run: &mut Run, seed: u64, thorough: bool) {
                         obs = g.rotate(&cand, &pf, false, &AuthSpec::None, &format!("nobypass-{tcls}"));
                     }
                     4 | 5 => {
-                        let pf = g.honest(&latest, &cand.rotation_data_hash(&g.env));
+                        let n = g.sets.len();
+                        let lo = n.saturating_sub(1 + g.retention as usize);
+                        let pick = lo + g.rng.below((n - lo) as u64) as usize;
+                        let signer_set = g.sets[pick].clone();
+                        let pf = g.honest(&signer_set, &cand.rotation_data_hash(&g.env));
                         obs = g.rotate(&cand, &pf, true, &AuthSpec::exact(&[op]), &format!("bypass-operator-{tcls}"));
                     }
                     6 => {
-                        let pf = g.honest(&latest, &cand.rotation_data_hash(&g.env));
+                        // signed by the latest OR an older, still retained set: the operator check must not depend on which
+                        let n = g.sets.len();
+                        let lo = n.saturating_sub(1 + g.retention as usize);
+                        let pick = lo + g.rng.below((n - lo) as u64) as usize;
+                        let signer_set = g.sets[pick].clone();
+                        let pf = g.honest(&signer_set, &cand.rotation_data_hash(&g.env));
                         let who = match g.rng.below(4) {
                             0 => (AuthSpec::exact(&[owner]), "owner"),
                             1 => (AuthSpec::exact(&[stranger.clone()]), "stranger"),
